@@ -487,6 +487,22 @@ def run_c08(tier, seed):
         cfg = base_cfg(rng, rng.random() < 0.3, rng.choice(['absent', 'inline', 'file', 'both']), stats=rng.random() < 0.3,
                        policy=rng.choice(['lrs', 'lru', 'lfu', 'none']))
         jobs_rand.append((cfg, prog, rng.choice(['pct', 'random']), seed * 100000 + i, 0))
+    # a handle being opened on the directory while other clients store and remove items: opening reads and writes the
+    # settings and counters statement by statement
+    nopen = 60 if tier == 'quick' else 1200
+    for i in range(nopen):
+        writer = [rng.choice([op('set', k=rng.choice([KA, KB]), v=rng.choice([5, F1, F2]), ttl=[], tag=0), op('delete', k=KA, mk='false'),
+                              op('incr', k=KB, d=1, df=[0]), op('pop', k=KA, fx=0, ft=0), op('add', k=KB, v=F3, ttl=[], tag=0)])
+                  for _ in range(rng.randint(1, 3))]
+        opener = [op('reopen')] + [rng.choice([op('len'), op('get', k=KA, fx=0, ft=0, mk='miss'), op('set', k=KB, v=6, ttl=[], tag=0)])
+                                   for _ in range(rng.randint(0, 2))]
+        if rng.random() < 0.3:
+            opener.insert(0, rng.choice(writer))
+        prog = {1: opener, 2: writer}
+        if rng.random() < 0.3:
+            prog[3] = [op('reopen'), op('len')]
+        cfg = base_cfg(rng, False, rng.choice(['absent', 'inline', 'file', 'both']), stats=rng.random() < 0.3)
+        jobs_rand.append((cfg, prog, rng.choice(['pct', 'random', 'random']), seed * 100000 + 70000 + i, 0))
     res2 = pmap(_run_random, jobs_rand, procs=14)
     traces += [t for lst in res2 for t in lst]
     for i, t in enumerate(traces):
@@ -496,6 +512,7 @@ def run_c08(tier, seed):
     verdicts, st, tr = validate_all('MonitorTrace.tla', 'MonitorTrace.cfg', traces, batch_events=40000)
     out.states += st
     out.transitions += tr
+    out.notes['histories_with_a_handle_opened_concurrently'] = nopen
     report(out, 'C08', traces, verdicts, known_findings('C08'))
     return out.finish({'evaluations': len(traces), 'distinct_nontrivial': failed_calls,
                        'fault_points_fired': fired,
